@@ -115,14 +115,18 @@ def _in_domain(g):
     return True
 
 
-def _coq_graph(g):
+def _lab_keys(a, nk):
+    return _lab_a(a) if nk is None else json.dumps([GG._js(a.get(k)) for k in nk], default=str)
+
+
+def _coq_graph(g, nk=None):
     """lgraph (N*N*N) (N*N): node label (exact-analysis label, WL label, full label); edge label (order code, full code).
     Order codes are monotone in the order value (AutoEst sorts neighbour signatures)."""
     ia, iw, ifl, ie = GG.Intern(), GG.Intern(), GG.Intern(), GG.Intern()
     orders = sorted({GG.half(a["order"]) for _, _, a in g["edges"]})
     return GG.coq_lgraph(
         g,
-        lambda n, a: "(%s, %s, %s)" % (cN(ia(_lab_a(a))), cN(iw(_lab_w(a))), cN(ifl(_lab_f(a)))),
+        lambda n, a: "(%s, %s, %s)" % (cN(ia(_lab_keys(a, nk))), cN(iw(_lab_w(a))), cN(ifl(_lab_f(a)))),
         lambda u, v, a: "(%s, %s)" % (cN(orders.index(GG.half(a["order"]))), cN(ie(_lab_e(a)))))
 
 
@@ -132,15 +136,16 @@ def _coq_maps(ms):
 
 # ------------------------------------------------------------------ implementation adapter
 
-def _impl_aut(case):
+def _aut_obs(G, nk=None):
+    """observable of the exact analysis + the WL estimate of the nx graph object G; nk = node attribute keys handed to
+    Automorphism and to the second estimate (None = the defaults element, charge)"""
     from synkit.Graph.Matcher.automorphism import Automorphism
     from synkit.Graph.Matcher.auto_est import AutoEst
-    G = GG.to_nx(case["g"])
-    A = Automorphism(G)
+    A = Automorphism(G) if nk is None else Automorphism(G, node_attr_keys=list(nk), edge_attr_keys=["order"])
     anchor = A.anchor_component
     out = [A.n_automorphisms, S([S(sorted(o)) for o in A.orbits]), [S(sorted(c)) for c in A.components],
            [] if anchor is None else [S(sorted(anchor))]]
-    for attrs in (WL_ATTRS4, None):
+    for attrs in (WL_ATTRS4, None if nk is None else list(nk)):
         rounds = []
         for k in WL_ITERS:
             est = AutoEst(G, node_attrs=attrs, edge_attrs=["order"], max_iter=k).fit()
@@ -148,6 +153,10 @@ def _impl_aut(case):
             rounds.append([col[n] for n in G.nodes()])
         out.append([rounds, [sorted(o) for o in est.orbits], sorted(est.anchor_component)])
     return [out, True, _impl_vf2(G, A)]
+
+
+def _impl_aut(case):
+    return _aut_obs(GG.to_nx(case["g"]))
 
 
 def _matcher(A, sub):
@@ -174,11 +183,13 @@ def _impl_vf2(G, A):
 
 
 def _dedup_cfgs(P, H):
-    """The 8 configurations: (function name, kwargs builder).  Built lazily so a missing function is an EXC, not a skip."""
+    """The configurations: 8 of round 1/2 + the rest of the option surface (host_anchor, WL host orbits that identify atoms
+    across components, empty orbit lists, PartialMatcher's own call).  Built lazily so a missing function is an EXC."""
     from synkit.Graph.Matcher.automorphism import Automorphism
     from synkit.Graph.Matcher.auto_est import AutoEst
     import synkit.Graph.Matcher.dedup_matches as DM
     est = AutoEst(P, node_attrs=WL_ATTRS4, edge_attrs=["order"]).fit()
+    esth = AutoEst(H, node_attrs=["element", "charge"], edge_attrs=["order"]).fit()
     ap, ah = Automorphism(P), Automorphism(H)
     ho = list(ah.orbits)
     old = DM.deduplicate_matches_with_anchor
@@ -192,7 +203,34 @@ def _dedup_cfgs(P, H):
         lambda ms: old(ms, host_orbits=_drop_last_orbit(ho)),
         (lambda ms: DM.deduplicate_matches_by_automorphisms(ms, DM.graph_automorphisms(P)))
         if hasattr(DM, "deduplicate_matches_by_automorphisms") else None,
+        # ---- round 3
+        lambda ms: old(ms, host_orbits=esth.orbits, host_anchor=esth.anchor_component),           # as PartialMatcher calls it
+        lambda ms: old(ms, host_orbits=ho, host_anchor=ah.anchor_component),
+        lambda ms: old(ms, pattern_orbits=est.orbits, pattern_anchor=est.anchor_component,
+                       host_orbits=esth.orbits, host_anchor=esth.anchor_component),
+        lambda ms: old(matches=ms, host_anchor=esth.anchor_component, host_orbits=esth.orbits, pattern_anchor=None,
+                       pattern_orbits=ap.orbits),                                                 # keywords permuted
+        lambda ms: old(ms, pattern_orbits=[]),
+        lambda ms: old(ms, host_orbits=[]),
+        lambda ms: _pm(P, H, 10)._prune_automorphic_mappings(ms),
+        lambda ms: _pm(P, H, 1)._prune_automorphic_mappings(ms),
     ]
+
+
+N_OLD = 8
+
+
+def _pm(P, H, k, prune=True):
+    from synkit.Graph.Matcher.partial_matcher import PartialMatcher
+    return PartialMatcher(host=H, pattern=P, node_attrs=["element", "charge"], edge_attrs=["order"], prune_auto=prune, wl_max_iter=k)
+
+
+def _pm_lists(case):
+    """PartialMatcher end to end: the mappings without and with prune_auto (same construction otherwise)"""
+    P, H = GG.to_nx(case["p"]), GG.to_nx(case["h"])
+    raw = _pm(P, H, 10, prune=False).get_mappings()
+    kept = _pm(P, H, 10, prune=True).get_mappings()
+    return raw, kept
 
 
 def _orbit_key(o):
@@ -224,8 +262,9 @@ def _indices(ms, out):
 def _impl_dedup(case):
     P, H = GG.to_nx(case["p"]), GG.to_nx(case["h"])
     res = []
+    shared = [dict((p, h) for p, h in m) for m in case["ms"]]      # history variant: ONE list object through every configuration
     for f in _dedup_cfgs(P, H):
-        ms = [dict((p, h) for p, h in m) for m in case["ms"]]
+        ms = shared if case.get("shared") else [dict((p, h) for p, h in m) for m in case["ms"]]
         if f is None:
             res.append([2, []])      # function absent from the tree: never equals a model value
             continue
@@ -295,6 +334,165 @@ def _impl_prune(case):
     return [[r["raw"], r["kept"], r["n_aut"]], True, True, not _prune_representatives(r)]
 
 
+# ------------------------------------------------------------------ history cases (one case = a script on SHARED objects)
+
+def apply_edits(g, ops):
+    """edit the case-dictionary graph (pure; the generator uses it to produce the graph after every step)"""
+    import copy
+    g = copy.deepcopy(g)
+    for op in ops:
+        if op[0] == "relabel":
+            for n, a in g["nodes"]:
+                if n == op[1]:
+                    a.update(op[2])
+        elif op[0] == "order":
+            for e in g["edges"]:
+                if {e[0], e[1]} == {op[1], op[2]}:
+                    e[2]["order"] = op[3]
+        elif op[0] == "add_edge":
+            g["edges"].append([op[1], op[2], dict(op[3])])
+        elif op[0] == "del_edge":
+            g["edges"] = [e for e in g["edges"] if {e[0], e[1]} != {op[1], op[2]}]
+        elif op[0] == "add_node":
+            g["nodes"].append([op[1], dict(op[2])])
+        elif op[0] == "del_node":
+            g["nodes"] = [x for x in g["nodes"] if x[0] != op[1]]
+            g["edges"] = [e for e in g["edges"] if op[1] not in e[:2]]
+        else:
+            raise AssertionError(op)
+    return g
+
+
+def _edit_nx(G, ops):
+    """the same edits IN PLACE on the shared networkx object"""
+    for op in ops:
+        if op[0] == "relabel":
+            G.nodes[op[1]].update(op[2])
+        elif op[0] == "order":
+            G[op[1]][op[2]]["order"] = op[3]
+        elif op[0] == "add_edge":
+            G.add_edge(op[1], op[2], **op[3])
+        elif op[0] == "del_edge":
+            G.remove_edge(op[1], op[2])
+        elif op[0] == "add_node":
+            G.add_node(op[1], **op[2])
+        elif op[0] == "del_node":
+            G.remove_node(op[1])
+
+
+def hist_graphs(case):
+    """the graph value after every step of an 'aut' history"""
+    g, out = case["g"], []
+    for st in case["steps"]:
+        g = apply_edits(g, st.get("edit", []))
+        out.append(g)
+    return out
+
+
+def _reuse_flags(G, E_old, lazy):
+    """Answers obtained from REUSED objects / repeated reads / results the caller has mutated, each compared with a fresh
+    object on the same graph value.  Every flag is expected True."""
+    import copy
+    from synkit.Graph.Matcher.automorphism import Automorphism
+    from synkit.Graph.Matcher.auto_est import AutoEst, estimate_automorphism_groups
+    import synkit.Graph.Matcher.dedup_matches as DM
+    Gc = copy.deepcopy(G)
+    fresh = AutoEst(Gc).fit()
+    fa = Automorphism(Gc)
+    flags = []
+    E_old.fit()                                                      # an estimator fitted before the edit, fitted again
+    flags.append(E_old.node_colors == fresh.node_colors and set(E_old.orbits) == set(fresh.orbits)
+                 and E_old.anchor_component == fresh.anchor_component)
+    o1 = E_old.orbits
+    o1.clear()                                                       # the caller mutates what it was given ...
+    c1 = E_old.node_colors
+    c1.clear()
+    oi = E_old.orbit_index
+    oi.clear()
+    flags.append(set(E_old.orbits) == set(fresh.orbits) and E_old.node_colors == fresh.node_colors    # ... later reads are unaffected
+                 and E_old.orbit_index == fresh.orbit_index)
+    flags.append(E_old.n_orbits == len(fresh.orbits) == len(E_old) == E_old.n_groups
+                 and sorted(map(sorted, E_old.groups)) == sorted(sorted(o) for o in fresh.orbits)
+                 and all(n in fresh.orbits[i] for n, i in fresh.orbit_index.items()))
+    fac = estimate_automorphism_groups(G, node_attrs=("element", "charge"), edge_attrs=("order",), max_iter=10)     # the facade, keywords
+    fac2 = estimate_automorphism_groups(G, None, None, 10)                                                           # positional, defaults
+    flags.append(fac.node_colors == fresh.node_colors == fac2.node_colors)
+    if lazy is not None:                                             # created before the edit, first read after it
+        flags.append(lazy.n_automorphisms == fa.n_automorphisms and set(lazy.orbits) == set(fa.orbits)
+                     and lazy.anchor_component == fa.anchor_component and set(lazy.components) == set(fa.components))
+    else:
+        flags.append(True)
+    A2 = Automorphism(G)
+    r1 = (A2.n_automorphisms, list(A2.orbits), A2.anchor_component, len(A2), A2.is_connected)
+    r2 = (A2.n_automorphisms, list(A2.orbits), A2.anchor_component, len(A2), A2.is_connected)       # repeated reads
+    flags.append(r1 == r2 and r1[0] == fa.n_automorphisms and set(r1[1]) == set(fa.orbits) and r1[3] == len(fa.orbits))
+    s1 = DM.graph_automorphisms(G)
+    n1 = len(s1)
+    for d in s1:
+        d.clear()                                                    # mutate the returned dictionaries
+    s2 = DM.graph_automorphisms(G)
+    flags.append(len(s2) == n1 and all(len(d) == G.number_of_nodes() for d in s2))
+    return flags
+
+
+N_FLAGS = 7
+
+
+def _impl_hist(case):
+    if case["script"] == "aut":
+        from synkit.Graph.Matcher.automorphism import Automorphism
+        from synkit.Graph.Matcher.auto_est import AutoEst
+        G = GG.to_nx(case["g"])
+        E_old = AutoEst(G).fit()
+        out = []
+        for st in case["steps"]:
+            lazy = Automorphism(G) if st.get("edit") else None
+            _edit_nx(G, st.get("edit", []))
+            out.append([_aut_obs(G, st.get("nk")), _reuse_flags(G, E_old, lazy)])
+        return out
+    if case["script"] == "prune":
+        return [_impl_prune(st) for st in case["steps"]]
+    raise AssertionError(case["script"])
+
+
+def _coq_hist(case):
+    if case["script"] == "aut":
+        terms = []
+        for st, g in zip(case["steps"], hist_graphs(case)):
+            if not _in_domain(g):
+                return None
+            terms.append("L [run_aut_wf %s; tlist tbool [%s]]" % (_coq_graph(g, st.get("nk")), "; ".join(["true"] * N_FLAGS)))
+        return "L [%s]" % "; ".join(terms)
+    if case["script"] == "prune":
+        terms = []
+        for st in case["steps"]:
+            t = coq_case(st)
+            if t is None:
+                return None
+            terms.append(t)
+        return "L [%s]" % "; ".join(terms)
+    raise AssertionError(case["script"])
+
+
+def _oracle_hist(case):
+    """every step is judged, on the shared objects, in script order (module-level state is shared across the steps)"""
+    fails = []
+    if case["script"] == "aut":
+        G = GG.to_nx(case["g"])
+        for k, (st, g) in enumerate(zip(case["steps"], hist_graphs(case))):
+            _edit_nx(G, st.get("edit", []))
+            for f in _oracle_aut_g(g, st.get("nk"), G=G):
+                fails.append(dict(f, detail="step %d: %s" % (k, f["detail"])))
+    elif case["script"] == "prune":
+        for k, st in enumerate(case["steps"]):
+            for f in _oracle_prune(st):
+                f = dict(f, detail="step %d (%s on %s): %s" % (k, st["tpl"], st["sub"], f["detail"]))
+                if "key" in f:
+                    f["key"] = "hist|%d|%s" % (k, f["key"])
+                fails.append(f)
+    return fails
+
+
 def impl(case):
     """[observable, True...]: the trailing booleans are the well-formedness of the graphs handed to the model (the
     premise `wf` of the theorems, computed by the model function wfb on the encoded graph)."""
@@ -302,7 +500,11 @@ def impl(case):
     if k == "aut":
         return _impl_aut(case)
     if k == "dedup":
-        return [_impl_dedup(case), True, True]
+        res = _impl_dedup(case)
+        raw, kept = _pm_lists(case)
+        return [[[res[:N_OLD], True, True]] + res[N_OLD:], [0, _indices(raw, kept)]]
+    if k == "hist":
+        return _impl_hist(case)
     if k == "prune":
         return _impl_prune(case)    # + rule centre well-formed, matches defined on its nodes, every raw match represented
     raise AssertionError(k)
@@ -346,6 +548,8 @@ def _mono_cost(g, labn, labe, cap):
 
 def coq_case(case):
     k = case["kind"]
+    if k == "hist":
+        return _coq_hist(case)
     if k == "aut":
         if not _in_domain(case["g"]):
             return None
@@ -353,7 +557,11 @@ def coq_case(case):
     if k == "dedup":
         if not (_in_domain(case["p"]) and _in_domain(case["h"])):
             return None
-        return "run_dedup_wf %s %s %s" % (_coq_graph(case["p"]), _coq_graph(case["h"]), _coq_maps(case["ms"]))
+        worker_init()
+        raw, _ = _pm_lists(case)
+        raw = [[[p, h] for p, h in m.items()] for m in raw]
+        return ("(let h := %s in L [run_dedup_x %s h %s; t_idx (partial_prune (@snd nat mapping) n_exact h 10 (indexed %s))])"
+                % (_coq_graph(case["h"]), _coq_graph(case["p"]), _coq_maps(case["ms"]), _coq_maps(raw)))
     if k == "prune":
         worker_init()
         r = _reactor(case, "front")
@@ -447,14 +655,24 @@ def _true_orbits(g, labf):
 
 
 def _oracle_aut(case):
+    return _oracle_aut_g(case["g"])
+
+
+def _oracle_aut_g(g, nk=None, G=None):
+    """the property on one graph; nk = node attribute keys given to Automorphism and to the second estimate (None = defaults);
+    G = the nx object to analyse (history cases: the shared, edited object) - default: a fresh one built from g"""
     from synkit.Graph.Matcher.automorphism import Automorphism
     from synkit.Graph.Matcher.auto_est import AutoEst
     from synkit.Graph.Matcher.orbit import OrbitAccuracy
-    g = case["g"]
-    G = GG.to_nx(g)
+    if G is None:
+        G = GG.to_nx(g)
     fails = []
-    A = Automorphism(G)
-    lab = {n: (a.get("element", "*"), a.get("charge", 0)) for n, a in g["nodes"]}
+    if nk is None:
+        A = Automorphism(G)
+        lab = {n: (a.get("element", "*"), a.get("charge", 0)) for n, a in g["nodes"]}
+    else:
+        A = Automorphism(G, node_attr_keys=list(nk), edge_attr_keys=["order"])
+        lab = {n: tuple(GG._js(a.get(k)) for k in nk) for n, a in g["nodes"]}
     adj = _adj(g, lambda a: a.get("order", 1.0))
     comps = _components(g)
     cnt, classes = 1, set()
@@ -471,7 +689,8 @@ def _oracle_aut(case):
         fails.append(dict(clause="orbits-exact", detail="orbits %r, brute force %r" % (sorted(map(sorted, got)), sorted(map(sorted, classes)))))
     if sorted(map(sorted, A.components)) != sorted(map(sorted, comps)):
         fails.append(dict(clause="components", detail="components %r vs %r" % (A.components, comps)))
-    for attrs, labf in ((WL_ATTRS4, lambda a: tuple(a.get(k) for k in WL_ATTRS4)), (None, lambda a: (a.get("element"), a.get("charge")))):
+    nk2 = ["element", "charge"] if nk is None else list(nk)
+    for attrs, labf in ((WL_ATTRS4, lambda a: tuple(a.get(k) for k in WL_ATTRS4)), (None if nk is None else nk2, lambda a: tuple(a.get(k) for k in nk2))):
         est = AutoEst(G, node_attrs=attrs, edge_attrs=["order"]).fit()
         col = est.node_colors
         truth = _true_orbits(g, labf)
@@ -522,7 +741,12 @@ def _oracle_dedup(case):
         if ci == 0 and idx != list(range(len(ms))):
             fails.append(dict(clause="dedup-sublist", detail="no orbit information given but the list changed"))
     # the automorphism-based de-duplicator only drops matches that are automorphism images of a kept one
-    if cfgs[-1] is None:
+    raw, kept = _pm_lists(case)
+    ki = _indices(raw, kept)
+    if not _is_subsequence(ki, len(raw)):
+        fails.append(dict(clause="dedup-sublist", detail="PartialMatcher(prune_auto=True).get_mappings() is not a subsequence of the unpruned "
+                                                         "mappings: indices %r of %d" % (ki, len(raw))))
+    if cfgs[N_OLD - 1] is None:
         return fails
     g = case["p"]
     nodes = [n for n, _ in g["nodes"]]
@@ -633,6 +857,8 @@ def oracle(case):
         return _oracle_aut(case)[:3]
     if k == "dedup":
         return _oracle_dedup(case)[:3]
+    if k == "hist":
+        return _oracle_hist(case)[:3]
     if k == "prune":
         return _oracle_prune(case)[:3]
     raise AssertionError(k)
@@ -692,8 +918,17 @@ def neighbours(case, rng):
 
 # ------------------------------------------------------------------ evidence helpers
 
+def _dedup_results(obs):
+    """flat list of the per-configuration results of a dedup observable"""
+    return list(obs[0][0][0]) + list(obs[0][1:]) + [obs[1]]
+
+
 def nontrivial(case, obs):
     k = case["kind"]
+    if k == "hist":
+        return len(case["steps"]) >= 2
+    if k == "dedup":
+        return any(r[0] == 0 and len(r[1]) < len(case["ms"]) for r in _dedup_results(obs)[:-1])
     obs = obs[0]
     if k == "aut":
         return len(case["g"]["nodes"]) >= 2 and (obs[0] > 1 or any(len(o) >= 2 for o in obs[4][1]))
@@ -706,7 +941,7 @@ def nontrivial(case, obs):
 
 def distribution(cases, obss):
     d = dict(aut_nodes={}, aut_group_order={}, aut_components={}, dedup_list_len={}, dedup_dropped={}, dedup_errors=0,
-             prune_raw={}, prune_kept_fraction={}, prune_rule_aut={}, prune_every_raw_match_represented={})
+             prune_raw={}, prune_kept_fraction={}, prune_rule_aut={}, prune_every_raw_match_represented={}, hist_scripts={})
 
     def bump(t, k):
         t[str(k)] = t.get(str(k), 0) + 1
@@ -719,6 +954,9 @@ def distribution(cases, obss):
     for c, o in zip(cases, obss):
         if not isinstance(o, list) or not o or o[0] == "EXC":
             continue
+        if c["kind"] == "hist":
+            bump(d["hist_scripts"], "%s/%d steps" % (c["script"], len(c["steps"])))
+            continue
         full, o = o, o[0]
         if c["kind"] == "aut":
             bump(d["aut_nodes"], len(c["g"]["nodes"]))
@@ -726,7 +964,7 @@ def distribution(cases, obss):
             bump(d["aut_components"], min(len(o[2]), 5))
         elif c["kind"] == "dedup":
             bump(d["dedup_list_len"], bucket(len(c["ms"])))
-            for ci, r in enumerate(o):
+            for ci, r in enumerate(_dedup_results(full)[:-1]):
                 if r[0] == 1:
                     d["dedup_errors"] += 1
                 elif len(r[1]) < len(c["ms"]):
